@@ -43,6 +43,7 @@ func loadAll(repo, verif string) *Prog {
 	p.buildGuards()
 	p.registerModuleFields()
 	p.loadParamAliases(verif)
+	p.loadCalleeBaseline(verif)
 	debugf("loaded in %.1fs: %d functions, %d contracts, %d extern specs", time.Since(t0).Seconds(), len(p.Funcs), len(p.Contracts), len(p.Externs))
 	return p
 }
